@@ -68,6 +68,13 @@ class Sources:
     def __init__(self, repo_src=REPO_SRC):
         self.repo_src = os.path.realpath(repo_src)
         self.mods = {}
+        # library files whose *source* is executed symbolically as well (instead of being modelled by hand)
+        self.extra_files = set()
+        try:
+            import lark.visitors, lark.tree
+            self.extra_files |= {os.path.realpath(lark.visitors.__file__), os.path.realpath(lark.tree.__file__)}
+        except Exception:
+            pass
 
     def is_repo_file(self, path):
         if not path:
@@ -81,8 +88,11 @@ class Sources:
         return self.mods[path]
 
     def is_repo_function(self, f):
+        """True if the function's source is executed symbolically (repository code or an inlined library file)."""
         code = getattr(f, "__code__", None)
-        return code is not None and self.is_repo_file(code.co_filename)
+        if code is None:
+            return False
+        return self.is_repo_file(code.co_filename) or os.path.realpath(code.co_filename) in self.extra_files
 
     def node_for_function(self, f):
         code = f.__code__
